@@ -2,7 +2,7 @@
    Contents: arithmetic helpers; [store] returns the canonical datum of any representable value; the decoder
    (significand table loop, scaling) equals the IEEE 754 layout [spec_decode]; the encoder's while loop
    (invariant: after j iterations ival = m / 2^(L-j), dvalue = (m mod 2^(L-j)) * 2^-(L-j), rem = R - j) and
-   [get_significand] for an exponent estimate that is exact, one too low or one too high; [soft_encode] equals
+   [get_significand] for an exponent estimate that is exact, one too low, one or two too high; [soft_encode] equals
    [spec_encode]; what the unrepaired encoder does on subnormals; [spec_decode]/[spec_encode] are inverse bijections. *)
 From Coq Require Import ZArith Bool Lia ZifyBool.
 From V Require Import IeeeSoft.
@@ -96,8 +96,11 @@ Proof. repeat split; reflexivity. Qed.
 (* ===== libm contracts, store, the decoder's significand loop ===== *)
 Definition pow2_ok (pw : Z -> dy) (lo hi : Z) : Prop :=
   forall e, lo <= e <= hi -> exists k, 0 <= k /\ pw e = (2 ^ k, e - k).
-Definition ilog2_ok (il : dy -> Z) : Prop :=
-  forall m e, 0 < m -> -1 <= il (m, e) - (Z.log2 m + e) <= 1.
+(* the exponent estimate (int)(log(x)/log(2.0)) for x = m * 2^e > 0, against floor(log2 x) = Z.log2 m + e: it may be one
+   too low (x = 2^k with the quotient rounded just below k), one too high (truncation toward zero for x < 1) or two too high
+   (x just below 2^k < 1 with the quotient rounded just above k); a subnormal must not be estimated above the minimum exponent *)
+Definition ilog2_ok (f : fmt) (il : dy -> Z) : Prop :=
+  forall m e, 0 < m -> -1 <= il (m, e) - (Z.log2 m + e) <= 2 /\ (Z.log2 m + e < emin f -> il (m, e) <= emin f).
 Definition fmt_ok (f : fmt) : Prop := 2 <= fb f /\ 3 <= eb f /\ 2 <= wcast f.
 
 Lemma div_p2_ok x k e : 0 <= k -> dy_div_p2 x (2 ^ k, e - k) = Some (fst x, snd x - e).
@@ -431,10 +434,10 @@ Variable ilog2 : dy -> Z.
 Variable pow2 : Z -> dy.
 Variable f : fmt.
 Hypothesis Hf : fmt_ok f.
-Hypothesis Hil : ilog2_ok ilog2.
+Hypothesis Hil : ilog2_ok f ilog2.
 Hypothesis Hpow : pow2_ok pow2 (emin f) (emax f).
 
-Lemma fits_small m L : 0 < m -> Z.log2 m <= fb f -> fb f - 1 <= L <= fb f + 1 -> fits f (m, - L) = true.
+Lemma fits_small m L : 0 < m -> Z.log2 m <= fb f -> fb f - 1 <= L <= fb f + 2 -> fits f (m, - L) = true.
 Proof.
   intros Hm Hlog HL. destruct (eb_facts f Hf) as [HB H2B]. destruct Hf as (Hfb & Heb & _).
   unfold fits, store. replace (m =? 0) with false by lia.
@@ -461,9 +464,9 @@ Proof.
 Qed.
 
 Lemma clamp_cases est t :
-  emin f <= t <= emax f -> -1 <= est - t <= 1 ->
+  emin f <= t <= emax f -> -1 <= est - t <= 2 ->
   let c := (if emax f <? (if est <? emin f then emin f else est) then emax f else (if est <? emin f then emin f else est)) in
-  emin f <= c <= emax f /\ t - 1 <= c <= t + 1.
+  emin f <= c <= emax f /\ t - 1 <= c <= t + 2.
 Proof.
   intros Ht He. cbv zeta. destruct (est <? emin f) eqn:H1.
   - destruct (emax f <? emin f) eqn:H2; lia.
@@ -478,19 +481,19 @@ Proof.
   pose proof (p2pos (fb f) ltac:(lia)) as Hpfb.
   assert (Hlog : Z.log2 m = fb f) by (apply Z.log2_unique; [lia | unfold Z.succ; lia]).
   unfold get_significand, fract_bits.
-  pose proof (Hil m e ltac:(lia)) as Hest. rewrite Hlog in Hest.
+  pose proof (Hil m e ltac:(lia)) as [Hest _]. rewrite Hlog in Hest.
   destruct (clamp_cases (ilog2 (m, e)) (fb f + e) ltac:(lia) ltac:(lia)) as [Hc1 Hc2].
   set (c := if emax f <? (if ilog2 (m, e) <? emin f then emin f else ilog2 (m, e)) then emax f
             else if ilog2 (m, e) <? emin f then emin f else ilog2 (m, e)) in *.
   destruct (Hpow c Hc1) as (k & Hk & ->). rewrite div_p2_ok by lia. cbn [fst snd].
   set (L := c - e). replace (e - c) with (- L) by (unfold L; lia).
-  assert (HL : fb f - 1 <= L <= fb f + 1) by (unfold L; lia).
+  assert (HL : fb f - 1 <= L <= fb f + 2) by (unfold L; lia).
   rewrite fits_small by lia. cbn [negb].
   rewrite trunc_q, sub_int_q by lia.
   pose proof (p2pos L ltac:(lia)) as HpL.
   assert (H4 : 4 <= 2 ^ wcast f) by (change 4 with (2 ^ 2); apply Z.pow_le_mono_r; lia).
   replace (Z.max 0 (- - L)) with L by lia.
-  assert (Hcase : L = fb f - 1 \/ L = fb f \/ L = fb f + 1) by lia.
+  assert (Hcase : L = fb f - 1 \/ L = fb f \/ fb f + 1 <= L) by lia.
   assert (Hfrac : m mod 2 ^ fb f = m - 2 ^ fb f).
   { symmetry. apply (Z.mod_unique m (2 ^ fb f) 1 (m - 2 ^ fb f)); rewrite p2succ in Hm by lia; lia. }
   destruct Hcase as [HLc | [HLc | HLc]].
@@ -531,21 +534,23 @@ Proof.
       * replace (L - j') with 0 by lia. change (2 ^ 0) with 1. rewrite Z.div_1_r.
         rewrite Z.land_ones by lia. exact Hfrac.
     + unfold L in HLc. lia.
-  - (* estimate one too high: the quotient is in [1/2,1), the leading 1 is found by the loop (ni0 = 1) *)
-    assert (Hiv : m / 2 ^ L = 0) by (apply Z.div_small; rewrite HLc; lia).
-    assert (Hmm : m mod 2 ^ L = m) by (apply Z.mod_small; rewrite HLc; lia).
+  - (* estimate one or two too high: the quotient is below 1; the loop shifts in the leading zero (if any) without counting
+       it, finds the leading 1 at iteration ni0 = L - fb and counts from there *)
+    assert (Hiv : m / 2 ^ L = 0).
+    { apply Z.div_small. split; [lia |]. apply Z.lt_le_trans with (2 ^ (fb f + 1)); [lia | apply Z.pow_le_mono_r; lia]. }
+    assert (Hmm : m mod 2 ^ L = m).
+    { apply Z.mod_small. split; [lia |]. apply Z.lt_le_trans with (2 ^ (fb f + 1)); [lia | apply Z.pow_le_mono_r; lia]. }
     rewrite Hiv, Hmm. replace (2 ^ wcast f <=? 0) with false by lia. change (0 <? 0) with false. cbv iota.
     change (0 <? 0) with false. cbv iota.
-    destruct (sig_while_first_one (fixsub && (c =? emin f)) 0 m L ltac:(lia) ltac:(lia) (fb f + 1) (Z.to_nat L + 1) 0
-                ltac:(lia) ltac:(lia) ltac:(lia) ltac:(lia) ltac:(replace (L - 1) with (fb f) by lia; rewrite HLc; lia))
-      as (j' & Heq & Hj & HR & Hend).
-    rewrite Heq.
-    assert (Hmod : m mod 2 ^ (L - j') = 0).
-    { destruct Hend as [? | Hz]; [assumption |]. replace (L - j') with 0 by lia. apply Z.mod_1_r. }
-    replace (c =? emin f) with false by (unfold L in HLc; lia).
+    replace (c =? emin f) with false by (unfold L in HLc; lia). rewrite andb_false_r.
+    destruct (sig_while_skip (Z.to_nat L + 1) L 0 m (fb f + 1) ltac:(split; [lia |]; apply Z.lt_le_trans with (2 ^ (fb f + 1)); [lia | apply Z.pow_le_mono_r; lia])
+                ltac:(lia) ltac:(lia) ltac:(lia)) as (j' & Heq & Hj & HR & Hend).
+    rewrite Heq. rewrite Hlog in *.
+    assert (Hmod : m mod 2 ^ (fb f + 1 - j') = 0).
+    { destruct Hend as [? | Hz]; [assumption |]. replace (fb f + 1 - j') with 0 by lia. apply Z.mod_1_r. }
     f_equal. f_equal. f_equal.
-    + replace (fb f + 1 - j') with (L - j') by lia. rewrite assemble by lia. exact Hfrac.
-    + unfold L in HLc. lia.
+    + rewrite assemble by lia. exact Hfrac.
+    + unfold L. lia.
 Qed.
 
 Lemma get_significand_subnormal fixsub m :
@@ -557,7 +562,7 @@ Proof.
   assert (Hlog : Z.log2 m < fb f) by (apply Z.log2_lt_pow2; lia).
   pose proof (Z.log2_nonneg m) as Hl0.
   unfold get_significand, fract_bits.
-  pose proof (Hil m (emin f - fb f) ltac:(lia)) as Hest.
+  pose proof (Hil m (emin f - fb f) ltac:(lia)) as [_ Hest]. specialize (Hest ltac:(lia)).
   assert (Hc : (if emax f <? (if ilog2 (m, emin f - fb f) <? emin f then emin f else ilog2 (m, emin f - fb f)) then emax f
             else if ilog2 (m, emin f - fb f) <? emin f then emin f else ilog2 (m, emin f - fb f)) = emin f).
   { destruct (ilog2 (m, emin f - fb f) <? emin f) eqn:H1.
@@ -603,7 +608,7 @@ Proof.
   pose proof (Z.log2_nonneg m) as Hl0.
   pose proof (Z.log2_spec m ltac:(lia)) as Hls. unfold Z.succ in Hls.
   unfold get_significand, fract_bits.
-  pose proof (Hil m (emin f - fb f) ltac:(lia)) as Hest.
+  pose proof (Hil m (emin f - fb f) ltac:(lia)) as [_ Hest]. specialize (Hest ltac:(lia)).
   assert (Hc : (if emax f <? (if ilog2 (m, emin f - fb f) <? emin f then emin f else ilog2 (m, emin f - fb f)) then emax f
             else if ilog2 (m, emin f - fb f) <? emin f then emin f else ilog2 (m, emin f - fb f)) = emin f).
   { destruct (ilog2 (m, emin f - fb f) <? emin f) eqn:H1.
@@ -655,7 +660,7 @@ Variable ilog2 : dy -> Z.
 Variable pow2 : Z -> dy.
 Variable f : fmt.
 Hypothesis Hf : fmt_ok f.
-Hypothesis Hil : ilog2_ok ilog2.
+Hypothesis Hil : ilog2_ok f ilog2.
 Hypothesis Hpow : pow2_ok pow2 (emin f) (emax f).
 
 Lemma sign_or (s : bool) v : 0 <= v < 2 ^ (fb f + eb f) ->
